@@ -254,7 +254,14 @@ func (w *SrvWorld) checkE2E() {
 					}
 				}
 			}
-			if !got && pl.Expect {
+			// a peer can reach the client only once the client has asked for a permission for it
+			permitted := false
+			for _, wr := range rc.Writes {
+				if mustUDPAddr(wr.Peer).IP.Equal(mustUDPAddr(pl.From).IP) && wr.T+5*sec <= pl.T {
+					permitted = true
+				}
+			}
+			if !got && pl.Expect && permitted {
 				w.K.Violate(&Violation{Property: "C14", Class: "probe-lost", Key: kv("dir", "p2c", "horizon", horizon(pl.T-rc.allocAt)),
 					Detail: fmt.Sprintf("datagram %s sent by %s to the relayed address at %d ns (%.0f s after Allocate) was never read by the client", key, pl.From, pl.T, float64(pl.T-rc.allocAt)/1e9)})
 				break
